@@ -274,6 +274,65 @@ def _validate_total_pop(fn):
                 neither='total_pop = n_agents; pop_scale = total_pop / n_agents')
 
 
+def _rate_rows(src):
+    """ The rates that `finalize` computes from already scaled series (Deaths.cmr, Pregnancy.cbr):
+            units = self.pars.rate_units * self.sim.t.dt_year ; inds = self.match_time_inds()
+            n_alive = self.sim.results.n_alive[inds]
+            x = np.divide(self.results[<source>], n_alive, where=n_alive > 0)     (no out=: entries without anybody alive are unspecified)
+            self.results[<rate>][:] = x / units
+        Any other shape is an ExtractError. """
+    rows = []
+    rel = 'starsim/demographics.py'
+    for cls in [n for n in ast.walk(src.tree(rel)) if isinstance(n, ast.ClassDef)]:
+        fn = next((n for n in cls.body if isinstance(n, ast.FunctionDef) and n.name == 'finalize'), None)
+        if fn is None: continue
+        asg = {}
+        order = []
+        for st in fn.body:
+            if isinstance(st, ast.Assign) and len(st.targets) == 1:
+                asg[unparse(st.targets[0])] = st.value; order.append(unparse(st.targets[0]))
+        divs = [(t, v) for t, v in asg.items() if isinstance(v, ast.Call) and unparse(v.func) == 'np.divide']
+        if not divs:
+            if any('n_alive' in unparse(v) for v in asg.values()):
+                raise ExtractError(f'{cls.name}.finalize uses n_alive without the recognised np.divide form')
+            continue
+        if len(divs) != 1:
+            raise ExtractError(f'{cls.name}.finalize: more than one np.divide')
+        tmp, call = divs[0]
+        where = f'{cls.name}.finalize'
+        if unparse(asg.get('units', ast.Constant(0))).replace(' ', '') != 'self.pars.rate_units*self.sim.t.dt_year':
+            raise ExtractError(f'{where}: units changed: {unparse(asg.get("units", ast.Constant(0)))}')
+        if unparse(asg.get('inds', ast.Constant(0))) != 'self.match_time_inds()' or unparse(asg.get('n_alive', ast.Constant(0))) != 'self.sim.results.n_alive[inds]':
+            raise ExtractError(f'{where}: n_alive / inds changed')
+        if len(call.args) != 2 or unparse(call.args[1]) != 'n_alive':
+            raise ExtractError(f'{where}: np.divide arguments changed: {unparse(call)[:80]}')
+        kws = {k.arg: unparse(k.value).replace(' ', '') for k in call.keywords}
+        if kws.get('where') != 'n_alive>0' or set(kws) - {'where', 'out'}:
+            raise ExtractError(f'{where}: np.divide keywords changed: {kws}')
+        sref = _res_ref(call.args[0], {})
+        if sref is None or sref[0] != 'self.results':
+            raise ExtractError(f'{where}: numerator is not a result of the module: {unparse(call.args[0])}')
+        target = None
+        for t, v in asg.items():
+            if isinstance(v, ast.BinOp) and isinstance(v.op, ast.Div) and unparse(v.left) == tmp:
+                if unparse(v.right) != 'units':
+                    raise ExtractError(f'{where}: rate is not divided by units: {unparse(v)}')
+                node = next(st.targets[0] for st in fn.body if isinstance(st, ast.Assign) and unparse(st.targets[0]) == t)
+                if not (isinstance(node, ast.Subscript) and unparse(node.slice) == ':'):
+                    raise ExtractError(f'{where}: unsupported rate target {t}')
+                tref = _res_ref(node.value, {})
+                if tref is None: raise ExtractError(f'{where}: unsupported rate target {t}')
+                target = tref[1]
+        if target is None:
+            raise ExtractError(f'{where}: no `<rate>[:] = {tmp}/units` statement')
+        # the scaling (super().finalize()) must come first
+        first = next((st for st in fn.body if not (isinstance(st, ast.Expr) and isinstance(st.value, ast.Constant))), None)
+        if not (isinstance(first, ast.Expr) and unparse(first.value) == 'super().finalize()'):
+            raise ExtractError(f'{where}: super().finalize() is not the first statement')
+        rows.append(dict(cls=cls.name, result=target, source=sref[1], has_out='out' in kws))
+    return rows
+
+
 @generator('ResultsTable', FILES)
 def gen(src):
     # every python file of the package must be in FILES (a new module with results must not go unnoticed)
@@ -307,11 +366,13 @@ def gen(src):
     sim_guard = _scale_loop(sim_fin, 'Sim.finalize', ('self.pars.pop_scale',))
     guarded, sets = _finalize_guard(sim_fin)
     how, rule, how_default = _summary_how(src.func('starsim/sim.py', 'summarize', 'Sim'))
+    rates = _rate_rows(src)
     vtp = _validate_total_pop(src.func('starsim/parameters.py', 'validate_total_pop', 'SimPars'))
 
     def b(x): return 'true' if x else 'false'
     rrows = ',\n  '.join(f"⟨{lean_str(r['cls'])}, {lean_str(r['func'])}, {lean_str(r['name'])}, {b(r['scale'])}, {b(r['dtype'] == 'float')}⟩" for r in rows)
     crows = ',\n  '.join(f"⟨{lean_str(c['cls'])}, {lean_str(c['result'])}, {lean_str(c['source'])}, {b(c['inclusive'])}, {lean_str(c['form'])}⟩" for c in cums)
+    qrows = ',\n  '.join(f"⟨{lean_str(q['cls'])}, {lean_str(q['result'])}, {lean_str(q['source'])}, {b(q['has_out'])}⟩" for q in rates)
     hrows = ', '.join(f'({lean_str(k)}, {lean_str(v)})' for k, v in how)
     body = f'''namespace StarsimModel.Gen
 /-- One `ss.Result(...)` literal: defining class and function, name (`*` = formatted field), `scale`, dtype is float -/
@@ -334,6 +395,15 @@ structure CumRow where
 deriving Repr, DecidableEq
 def cumRows : List CumRow := [
   {crows}]
+/-- A rate computed in `finalize` after the scaling: `result[:] = np.divide(source, n_alive[inds], where=n_alive>0) / units` -/
+structure RateRow where
+  cls : String
+  result : String
+  source : String
+  hasOut : Bool
+deriving Repr, DecidableEq
+def rateRows : List RateRow := [
+  {qrows}]
 /-- `Module.finalize_results` scales exactly the results whose `scale` flag is set (guard `isinstance(res, ss.Result) and res.scale`) -/
 def moduleScalesFlaggedOnly : Bool := {b(mod_guard == 'flag')}
 /-- `Sim.finalize` likewise for the sim-level results -/
@@ -352,6 +422,7 @@ end StarsimModel.Gen
 '''
     facts = dict(results=[[r['cls'], r['name'], r['scale'], r['dtype']] for r in rows],
                  cumulative=[[c['cls'], c['result'], c['source'], c['form']] for c in cums],
+                 rates=[[q['cls'], q['result'], q['source'], q['has_out']] for q in rates],
                  module_scale_guard=mod_guard, sim_scale_guard=sim_guard, finalize_guarded=guarded,
                  finalize_sets_ready=sets, summary_how=how, summary_rule=rule, summary_default=how_default,
                  validate_total_pop=vtp, result_defaults=dict(scale=dscale, dtype=ddtype))
